@@ -1389,3 +1389,8 @@ mod tests {
         assert_eq!(total, (1..7).sum());
     }
 }
+
+// Verification hook (see /verif/DESIGN.md §2.1): only seen by kani-compiler.
+#[cfg(kani)]
+#[path = "/verif/harness/incrate/list.rs"]
+mod verif_kani;
